@@ -11,11 +11,11 @@ CHECKS = {
             "TLC exhaustive enumeration of all weighted binary vectors (Metrics.tla laws) + replay of every TLC state into fairlearn.metrics under every encoding",
             "TLC checks range / complement / class-swap laws on every vector up to the bound and emits exact rational expected values; every emitted state is executed against the seven base metrics under 10 encodings, weighted and unweighted, two row orders; scalar-ness asserted",
             "sklearn's confusion_matrix is exercised through the public functions, not trusted; vectors longer than the bound only by simulation (thorough)", "5/C14"),
-    "C02": (["Frame.tla", "Rat.tla"],  # noqa
+    "C02": (["Frame.tla", "FrameCalls.tla", "Rat.tla"],  # noqa
             "TLC exhaustive enumeration of small datasets (Frame.tla aggregate laws) + replay of every TLC state into MetricFrame, all aggregates x methods x errors",
             "TLC shows the 'hence' inequalities follow from the aggregate definitions on every dataset up to the bound and emits the exact rational value of group_min/max, difference, ratio for both methods; each state is replayed into MetricFrame (dict and callable form, weighted/unweighted, with/without control feature, canonical and shuffled row order) and every aggregate for both errors settings is compared; inequalities re-evaluated on the code's floats",
             "10 scalar metrics incl. a signed one (smean) and one that is NaN on non-empty groups (precn); one sensitive + at most one control feature, and the same rows read as two sensitive features (product index with NaN cells); further layouts are C01's spec", "5/C02"),
-    "C03": (["Frame.tla", "Rat.tla"],
+    "C03": (["Frame.tla", "Derived.tla", "Rat.tla"],
             "TLC exhaustive enumeration of all binary datasets with 1..4 groups up to the size bound + replay of every state into all named / generated fairness metrics",
             "every dataset (groups of size 1, empty denominators included) up to the bound is a TLC state carrying the exact first-principles value of DP/EOpp/EOdds x difference/ratio x method x agg and of each generated metric; every public function is called on each state with and without sample_weight",
             "roc_auc/r2/f1/balanced-accuracy/log-loss variants and make_derived_metric are checked for equivalence with the MetricFrame call (plus a first-principles value for a custom weighted metric); equalized_odds_ratio not compared when a component ratio is 0/0", "5/C03"),
@@ -23,7 +23,7 @@ CHECKS = {
             "TLC-checked multiplicity laws on the definitions (Expand / Scale / AllOnes) + the same three metamorphic pairs executed on the code for every TLC state",
             "laws LawExpand, LawExpandUnit, LawScale, LawAllOnes, LawUnitWeights hold on every enumerated dataset; for each state the code is run weighted, expanded with unit weights, expanded without weights, with real scalings (0.5, pi, 3) and with weights omitted, for the six weighted base metrics, MetricFrame cells/aggregates per group and four named fairness metrics; results compared with each other and with the spec's exact value",
             "integer weights 1..3 in the enumeration; real-valued scalings only as multiples of those", "5/C11"),
-    "C01": (["FrameCells.tla"],
+    "C01": (["FrameCells.tla", "Naming.tla"],
             "TLC exhaustive enumeration of feature-tuple multisets per layout (FrameCells.tla: cells as row sets, index = product of observed values) + replay with a row-set fingerprint metric",
             "the specification defines each by_group / overall entry by the set of row positions it must be evaluated on; TLC checks partition / index-size laws and emits every state for 8 layouts (1..3 sensitive x 0..2 control features); the replay makes the code report, per cell, exactly which rows and which sliced sample-parameter rows its metric saw (y_true_i = 2^i fingerprints), compares index, names, NaN for empty combinations, and three real metrics against the metric called directly on the specified row set",
             "fingerprints exact for <= 26 rows; metric callables are scalar valued as the property states", "5/C01"),
@@ -51,7 +51,7 @@ CHECKS = {
             "Apalache proves the stop rule's certification clauses (early stop only after an iteration with gap < nu and t >= 5; minimum gap < nu at an early stop; no overrun) inductive for unbounded max_iter / nu / gap values (EGInd.tla; the mapped invariant IndMapped is also checked by TLC on EG.tla and along every validated trace); TLC proves the certificate => guarantees theorem on a bounded family of rational games (Game.tla) and the early-stop/selection invariants on all bounded protocols (EG.tla); real EG fits with an exact learner are checked against TLC's exact payoff tables and every recorded iteration trace is validated by TLC against EGTrace.tla",
             "for each fit: weights_ is a distribution over predictors_; the TRUE duality gap of the returned Q against the multiplier recorded for the returned iteration (min over the whole hypothesis class on the exact table) is <= best_gap_; error(Q) <= OPT + 2 best_gap_ (OPT by LP over the table) and each constraint <= bound + (1+2 best_gap_)/B when feasible; stopping before max_iter implies best_gap_ < nu; the trace (oracle results, Q_EG = Qsum/(t+1) exactly, EG/LP source by gap comparison, stop rule, last-minimum selection) is accepted by the trace spec",
             "float64 inequalities (slack 1e-7) over exact table data; gaps as dense ranks; exhaustive small tables plus TLC-simulated larger ones (N<=12) for long runs without the LP step; fits hitting the 0/0 weight normalisation are skipped and listed; cost-sensitive objective at refinement tier", "5/C08"),
-    "C10": (["Threshold.tla", "EG.tla", "Moments.tla"],
+    "C10": (["Threshold.tla", "EG.tla", "Moments.tla", "Interp.tla"],
             "models fitted on TLC-enumerated datasets (Threshold.tla Valid states; Moments.tla payoff-table states) are queried: pmf validity, dependence on (score, group) only, monotonicity without flip, EG pmf == mixture of predictors_ by id, support/determinism over seeds; frequency clause by a fixed-seed 6-sigma test",
             "TLA+ states validity / functional dependence / id-alignment / support and determinism; every fitted ThresholdOptimizer (seeded configurations per Valid dataset) and every EG model of the C08 run is checked on scrambled query sets with duplicates; regression (BoundedGroupLoss, runs without the LP step whose weights_ index is not in id order) draws are matched to the predictors' own weights by output value",
             "frequencies: 3000 replicated rows per query point, 6 sigma, fixed seeds (statistical clause outside TLC); label = [p >= U] is refinement tier only", "5/C10"),
@@ -67,15 +67,15 @@ CHECKS = {
             "TLC exhaustive enumeration of small integer matrices (CorrRem.tla: exact least-squares residual with rank cases, alpha blend, learned affine map; laws ZeroCov, TransformIsFitTransform) + fit_transform/transform replay of every state; direct property checks on seeded real-valued matrices",
             "every matrix (1..2 sensitive + 1..2 other columns, constant and collinear sensitive columns included) is replayed as ndarray (positional ids) and DataFrame (named ids) with shuffled rows, a seeded column layout, alpha in {0, 1/2, 1} and a new-row transform against exact rationals; on 300 (quick) / 4000 real matrices with 1..4 sensitive columns zero covariance, the alpha formula, affinity and training-consistency of transform are checked on the code's output",
             "exact spec covers K <= 2 sensitive columns; K = 3, 4 only by the real-valued direct checks", "5/C15"),
-    "C16": (["AdvUpdate.tla", "AdvUpdateInd.tla", "Rat.tla"],
+    "C16": (["AdvUpdate.tla", "AdvUpdateInd.tla", "Backend.tla", "Rat.tla"],
             "TLC enumerates integer gradient tensors and alpha (AdvUpdate.tla: orthogonality law, zero-gradient law, states where a row-pair reading would differ); Apalache proves the orthogonality law for arbitrary integer entries of a 4-entry tensor (AdvUpdateInd.tla); each state's gradients are forced into the real PytorchEngine.train_step through linear losses (backend= subclass overriding get_loss) and the SGD parameter change compared with the exact rational update; real networks checked against autograd-recomputed updates",
             "forced cases: every predictor tensor entry equals -lr * g of the specification (2e-5) and the adversary follows the plain gradient; real networks (0-2 hidden layers, widths 1-6, binary/multiclass/continuous targets and sensitive features, demographic parity and equalized odds, fresh initialisation): every predictor and adversary tensor after one step equals the documented update computed from autograd gradients on a deep copy",
             "PyTorch engine only (tensorflow is not installed in this sandbox); float32 tolerance 2e-5", "5/C16"),
-    "C17": (["AdvSchedule.tla", "AdvScheduleInd.tla", "AdvTrace.tla", "AdvPredict.tla"],
+    "C17": (["AdvSchedule.tla", "AdvScheduleInd.tla", "AdvTrace.tla", "AdvPredict.tla", "Encode.tla"],
             "TLC model-checks the step schedule machine for every bounded configuration (AdvSchedule.tla) and emits its behaviours; Apalache proves the schedule invariant (step count, callback count, slice laws) inductive for unbounded n / batch size / epochs / max_iter (AdvScheduleInd.tla; the mapped invariant IndMapped is also checked by TLC); each behaviour is replayed into the real estimator (recording PytorchEngine subclass + recording callbacks) and followed by the equivalent partial_fit sequence; larger recorded executions are validated by TLC against AdvTrace.tla; AdvPredict.tla fixes the label-space mapping, replayed with forced raw outputs",
             "event sequence (slice bounds, step numbers, callback numbers per callback, stop) and n_iter_ equal the specification's for every configuration incl. batch_size -1 / not dividing n, epochs -1, max_iter, 1-2 callbacks; parameters after fit are torch.equal to those after partial_fit on the same slices; predict returns the positive class iff raw >= 1/2, the first arg-max class, the raw value, for 7 binary and 3 multiclass label encodings",
             "PyTorch backend only; shuffle=False as the property states", "5/C17"),
-    "C18": (["Bootstrap.tla", "BootTrace.tla"],
+    "C18": (["Bootstrap.tla", "BootTrace.tla", "BootArgs.tla"],
             "TLC checks the quantile laws (monotone in the level, constant metric, range, enclosure of the mean) on all bounded statistic sequences (Bootstrap.tla); every recorded bootstrap call stream of real MetricFrames (recording metric logging the row-id multiset of each call) is validated by TLC against BootTrace.tla",
             "per trace: the call stream splits into passes of exactly n rows (point estimate, then per resample an overall and a by-group pass), exactly n_boot resamples of n ids from the data, by-group calls hold one group each and partition the resample, resamples repeat rows and differ from each other, and the reported by_group quantiles of count equal the specification's quantile of the resample group sizes exactly; the harness checks list length, type/columns/index, ordering, and equality across two runs for all ten *_ci results, overall count = n, constant metric, positive width and enclosure of the resampling mean",
             "dyadic quantile levels (k/8) so that reported values are exact rationals; the width / enclosure clause is statistical (fixed seeds)", "5/C18"),
